@@ -1,2 +1,504 @@
-def run_behaviour(ctx, helper, run_record, run_check, only=None):
-    return {"executions": 0, "cases_with_fix": 0}
+"""C16 clause (4): behaviour of S*/QF* fixes.
+
+TLC (specs/MCFixCases.tla) enumerates the abstract cases  shape x operand effects x context;
+this module instantiates each as an executable Go function (one template per shape id), runs
+the real analyzers on the generated package through the same record -> FixesObs -> go/types
+pipeline as every other input, applies every offered S*/QF* fix, compiles original and fixed
+functions natively, runs both on every input vector of the case's domain, and hands the
+observation tables to TLC (specs/FixCasesObs.tla), which evaluates FixCases!Preserved.
+"""
+import base64
+import collections
+import itertools
+import json
+import os
+import re
+
+import vlib
+from vlib import Inconclusive
+
+# QF1009 (== on time.Time -> Equal) and QF1010 (print []byte as string) are documented as
+# changing behaviour on purpose; they are not "equivalent rewrites" and have no template.
+
+PARTNER = 3   # index of the second variable of compound operands
+CTXV = 4      # index of the context variable
+
+
+def operand(kind, eff, k):
+    p = PARTNER
+    table = {
+        "bool": {"var": "b%d" % k, "call": "rt.Eb(%d)" % k, "pcall": "rt.Pb(%d)" % k, "or": "b%d || b%d" % (k, p),
+                 "and": "b%d && b%d" % (k, p), "not": "!b%d" % k, "cmp": "i%d < 1" % k},
+        "int": {"var": "i%d" % k, "lit": str(k + 1), "call": "rt.Ei(%d)" % k, "add": "i%d + 1" % k},
+        "str": {"var": "s%d" % k, "lit": '"a"', "call": "rt.Es(%d)" % k, "cat": 's%d + "b"' % k},
+        "flt": {"var": "f%d" % k, "call": "rt.Ef(%d)" % k, "add": "f%d + 1" % k},
+        "sl": {"var": "x%d" % k, "call": "rt.Esl(%d)" % k},
+        "bs": {"var": "y%d" % k, "call": "rt.Ebs(%d)" % k},
+        "w": {"var": "w", "call": "rt.Ew(w)"},
+    }
+    return table[kind][eff]
+
+
+def boolctx(E, ctx, paren_bang=False):
+    if ctx == "bang" and paren_bang:
+        E = "(" + E + ")"
+    cond = {"if": E, "andR": "b%d && %s" % (CTXV, E), "orR": "b%d || %s" % (CTXV, E), "bang": "!" + E, "eqL": "%s == b%d" % (E, CTXV)}[ctx]
+    return 'if %s {\n\t\tres = "T"\n\t} else {\n\t\tres = "F"\n\t}' % cond
+
+
+def T_s1002(op):
+    def t(o, ctx):
+        x = o[0]
+        compound = " " in x
+        # keep the source well-typed: `true == a < 1` / `!a < 1 == true` would apply ==/! to an int
+        if compound and (op == "Teq" or (ctx == "bang" and "<" in x)):
+            o = ["(" + x + ")"]
+        return boolctx({"eqT": "%s == true", "neT": "%s != true", "eqF": "%s == false", "neF": "%s != false", "Teq": "true == %s"}[op] % o[0], ctx)
+    return t
+
+
+def T_s1003(fn, cmp):
+    def t(o, ctx):
+        return boolctx("strings.%s(%s, %s) %s" % (fn, o[0], o[1], cmp), ctx, paren_bang=True)
+    return t
+
+
+def T_s1004(cmp):
+    def t(o, ctx):
+        return boolctx("bytes.Compare(%s, %s) %s" % (o[0], o[1], cmp), ctx, paren_bang=True)
+    return t
+
+
+def T_qf1001(fmt_):
+    def t(o, ctx):
+        return boolctx(fmt_ % tuple(o), ctx)
+    return t
+
+
+def T_qf1005(n):
+    def t(o, ctx):
+        e = "math.Pow(%s, %d)" % (o[0], n)
+        e = {"stmt": e, "div": "8 / " + e, "neg": "-" + e}[ctx]
+        return "res = fmt.Sprint(%s)" % e
+    return t
+
+
+TEMPLATES = {
+    "s1002_eqT": T_s1002("eqT"), "s1002_neT": T_s1002("neT"), "s1002_eqF": T_s1002("eqF"), "s1002_neF": T_s1002("neF"), "s1002_Teq": T_s1002("Teq"),
+    "s1003_ne": T_s1003("Index", "!= -1"), "s1003_eq": T_s1003("Index", "== -1"), "s1003_ge": T_s1003("Index", ">= 0"),
+    "s1003_lt": T_s1003("Index", "< 0"), "s1003_gt": T_s1003("Index", "> -1"), "s1003_any": T_s1003("IndexAny", "!= -1"),
+    "s1004_eq": T_s1004("== 0"), "s1004_ne": T_s1004("!= 0"),
+    "s1005_rangeiblank": lambda o, c: "n := 0\n\tfor i, _ := range %s {\n\t\tn += i + 1\n\t}\n\tres = fmt.Sprint(n)" % o[0],
+    "s1005_rangeblank": lambda o, c: "n := 0\n\tfor _ = range %s {\n\t\tn++\n\t}\n\tres = fmt.Sprint(n)" % o[0],
+    "s1010": lambda o, c: "res = fmt.Sprint(x3[%s:len(x3)])" % o[0],
+    "s1011": lambda o, c: "var dst []int\n\tdst = append(dst, 7)\n\tfor _, e := range %s {\n\t\tdst = append(dst, e)\n\t}\n\tres = fmt.Sprint(dst)" % o[0],
+    "s1001": lambda o, c: "dst := make([]int, 2)\n\tdefer func() { res = fmt.Sprint(dst) }()\n\tfor i, e := range %s {\n\t\tdst[i] = e\n\t}" % o[0],
+    "s1016": lambda o, c: "v := s1016a{i0, s0}\n\tw := s1016b{A: v.A, B: v.B}\n\tres = fmt.Sprint(w)",
+    "s1018": lambda o, c: "bs := []int{1, 2, 3, 4, 5}\n\tdefer func() { res = fmt.Sprint(bs) }()\n\tn, offset := %s, %s\n\tfor i := 0; i < n; i++ {\n\t\tbs[i] = bs[offset+i]\n\t}" % (o[0], o[1]),
+    "s1021": lambda o, c: "var x int\n\tx = %s\n\tres = fmt.Sprint(x)" % o[0],
+    "s1025_str": lambda o, c: 'res = fmt.Sprintf("%%s", %s)' % o[0],
+    "s1025_stringer": lambda o, c: 'st := rt.Str(i0)\n\tres = fmt.Sprintf("%s", st)',
+    "s1028": lambda o, c: 'err := errors.New(fmt.Sprintf("v=%%d", %s))\n\tres = err.Error()' % o[0],
+    "s1030_string": lambda o, c: "var buf bytes.Buffer\n\tbuf.WriteString(s0)\n\tres = string(buf.Bytes())",
+    "s1030_bytes": lambda o, c: "var buf bytes.Buffer\n\tbuf.WriteString(s0)\n\tres = fmt.Sprint([]byte(buf.String()))",
+    "s1033": lambda o, c: "m := map[int]int{0: 1, 1: 2}\n\tdefer func() { res = fmt.Sprint(m) }()\n\tif _, ok := m[%s]; ok {\n\t\tdelete(m, %s)\n\t}" % (o[0], o[0]),
+    "s1034": lambda o, c: 'var x interface{} = i0\n\tif b0 {\n\t\tx = s0\n\t}\n\tswitch x.(type) {\n\tcase int:\n\t\ty := x.(int)\n\t\tres = fmt.Sprint("int", y)\n\tcase string:\n\t\tres = "str"\n\t}',
+    "s1036_inc": lambda o, c: "m := map[int]int{0: 5}\n\tdefer func() { res = fmt.Sprint(m) }()\n\tif _, ok := m[%s]; ok {\n\t\tm[%s] += %s\n\t} else {\n\t\tm[%s] = %s\n\t}" % (o[0], o[0], o[1], o[0], o[1]),
+    "s1039": lambda o, c: 'res = fmt.Sprint("lit")',
+    "qf1001_and2": T_qf1001("!(%s && %s)"), "qf1001_or2": T_qf1001("!(%s || %s)"), "qf1001_and3": T_qf1001("!(%s && %s && %s)"),
+    "qf1002": lambda o, c: 'switch {\n\tcase i3 == %s:\n\t\tres = "one"\n\tcase i3 == %s || i3 == 7:\n\t\tres = "two"\n\tdefault:\n\t\tres = "other"\n\t}' % (o[0], o[1]),
+    "qf1003": lambda o, c: 'if i3 == %s {\n\t\tres = "one"\n\t} else if i3 == %s {\n\t\tres = "two"\n\t} else if i3 == 9 {\n\t\tres = "nine"\n\t} else {\n\t\tres = "other"\n\t}' % (o[0], o[1]),
+    "qf1004": lambda o, c: "res = strings.Replace(%s, %s, %s, -1)" % (o[0], o[1], o[2]),
+    "qf1005_sq": T_qf1005(2), "qf1005_cube": T_qf1005(3),
+    "qf1006": lambda o, c: "n := 0\n\tdefer func() { res = fmt.Sprint(n) }()\n\tfor {\n\t\tif %s {\n\t\t\tbreak\n\t\t}\n\t\tn++\n\t\tif n > 2 {\n\t\t\treturn\n\t\t}\n\t}" % o[0],
+    "qf1007": lambda o, c: "x := false\n\tif %s {\n\t\tx = true\n\t}\n\tres = fmt.Sprint(x)" % o[0],
+    "qf1008": lambda o, c: "o := qf1008o{qf1008i{i0}}\n\tres = fmt.Sprint(o.qf1008i.F)",
+    "qf1011": lambda o, c: "var x int = %s\n\tres = fmt.Sprint(x)" % o[0],
+    "qf1012": lambda o, c: 'var buf bytes.Buffer\n\tvar w io.Writer = &buf\n\tn, err := %s.Write([]byte(fmt.Sprintf("v=%%d", %s)))\n\tres = fmt.Sprint(n, err, buf.String())' % (o[0], o[1]),
+}
+
+PKG_DECLS = {
+    "s1016": "type s1016a struct {\n\tA int\n\tB string\n}\n\ntype s1016b struct {\n\tA int\n\tB string\n}\n",
+    "qf1008": "type qf1008i struct{ F int }\n\ntype qf1008o struct{ qf1008i }\n",
+}
+
+LOCALS = [
+    (r"\bb(\d)\b", "b%s := rt.In.B[%s]", "B"), (r"\bi(\d)\b", "i%s := rt.In.I[%s]", "I"), (r"\bs(\d)\b", "s%s := rt.In.S[%s]", "S"),
+    (r"\bf(\d)\b", "f%s := float64(rt.In.I[%s])", "I"), (r"\bx(\d)\b", "x%s := rt.Sl(rt.In.I[%s])", "I"), (r"\by(\d)\b", "y%s := []byte(rt.In.S[%s])", "S"),
+]
+CALLS = [(r"rt\.Eb\((\d)\)", ["B"]), (r"rt\.Pb\((\d)\)", ["B", "P"]), (r"rt\.Ei\((\d)\)", ["I"]), (r"rt\.Es\((\d)\)", ["S"]),
+         (r"rt\.Ef\((\d)\)", ["I"]), (r"rt\.Esl\((\d)\)", ["I"]), (r"rt\.Ebs\((\d)\)", ["S"])]
+IMPORTS = [("fmt.", "fmt"), ("strings.", "strings"), ("bytes.", "bytes"), ("errors.", "errors"), ("math.", "math"), ("io.", "io"), ("rt.", "ex.test/beh/rt")]
+
+RT_GO = '''// Package rt is the observable runtime of the generated behaviour cases.
+package rt
+
+import (
+	"io"
+	"strconv"
+)
+
+type Inputs struct {
+	B [6]bool
+	I [6]int
+	S [6]string
+	P [6]bool
+}
+
+var In Inputs
+var Log []int
+
+func Eb(k int) bool { Log = append(Log, k); return In.B[k] }
+func Pb(k int) bool {
+	Log = append(Log, k)
+	if In.P[k] {
+		panic("pb")
+	}
+	return In.B[k]
+}
+func Ei(k int) int       { Log = append(Log, 10+k); return In.I[k] }
+func Es(k int) string    { Log = append(Log, 20+k); return In.S[k] }
+func Ef(k int) float64   { Log = append(Log, 30+k); return float64(In.I[k]) }
+func Esl(k int) []int    { Log = append(Log, 40+k); return Sl(In.I[k]) }
+func Ebs(k int) []byte   { Log = append(Log, 50+k); return []byte(In.S[k]) }
+func Ew(w io.Writer) io.Writer { Log = append(Log, 60); return w }
+
+// Sl: n < 0 -> nil, else a fresh slice 10, 20, ...
+func Sl(n int) []int {
+	if n < 0 {
+		return nil
+	}
+	s := make([]int, n)
+	for i := range s {
+		s[i] = 10 * (i + 1)
+	}
+	return s
+}
+
+type Str int
+
+func (s Str) String() string { return "S" + strconv.Itoa(int(s)) }
+'''
+
+MAIN_GO = '''package main
+
+import (
+	"encoding/json"
+	"fmt"
+	"os"
+	"runtime"
+
+	"ex.test/beh/rt"
+%(imports)s
+)
+
+type obs struct {
+	Ret   string `json:"ret"`
+	Pan   string `json:"pan"`
+	Emits []int  `json:"emits"`
+}
+
+type entry struct {
+	ID     string
+	Inputs []string
+	Orig   func() string
+	Fixed  func() string
+}
+
+var domB = []bool{false, true}
+var domI = []int{-1, 0, 1, 3}
+var domS = []string{"", "a", "ab", "ba"}
+
+func runOne(f func() string) (o obs) {
+	rt.Log = nil
+	defer func() {
+		if r := recover(); r != nil {
+			if _, ok := r.(runtime.Error); ok {
+				o.Pan = "runtime error"
+			} else {
+				o.Pan = "panic: " + fmt.Sprint(r)
+			}
+		}
+		o.Emits = append([]int{}, rt.Log...)
+	}()
+	o.Ret = f()
+	return o
+}
+
+func vectors(inputs []string, k int, emit func()) {
+	if k == len(inputs) {
+		emit()
+		return
+	}
+	idx := int(inputs[k][1] - '0')
+	switch inputs[k][0] {
+	case 'B':
+		for _, v := range domB {
+			rt.In.B[idx] = v
+			vectors(inputs, k+1, emit)
+		}
+	case 'P':
+		for _, v := range domB {
+			rt.In.P[idx] = v
+			vectors(inputs, k+1, emit)
+		}
+	case 'I':
+		for _, v := range domI {
+			rt.In.I[idx] = v
+			vectors(inputs, k+1, emit)
+		}
+	case 'S':
+		for _, v := range domS {
+			rt.In.S[idx] = v
+			vectors(inputs, k+1, emit)
+		}
+	}
+}
+
+func main() {
+	enc := json.NewEncoder(os.Stdout)
+	for _, e := range entries {
+		var orig, fixed []obs
+		var ins []rt.Inputs
+		rt.In = rt.Inputs{}
+		vectors(e.Inputs, 0, func() {
+			saved := rt.In
+			orig = append(orig, runOne(e.Orig))
+			rt.In = saved
+			fixed = append(fixed, runOne(e.Fixed))
+			rt.In = saved
+			ins = append(ins, saved)
+		})
+		enc.Encode(map[string]any{"id": e.ID, "orig": orig, "fixed": fixed, "inputs": e.Inputs, "n": len(ins)})
+	}
+}
+
+var entries = []entry{
+%(entries)s
+}
+'''
+
+
+def enumerate_cases(ctx):
+    r = vlib.run_tlc(ctx, "MCFixCases", "MCFixCases.cfg", workers=2, timeout=900)
+    vlib.tlc_require_ok(r, "FixCases enumeration")
+    cases = sorted(r.cases, key=lambda c: (c["shape"], c["ctx"], c["effects"]))
+    if len(cases) != r.distinct:
+        raise Inconclusive("MCFixCases emitted %d cases for %d states" % (len(cases), r.distinct))
+    shapes = {c["shape"] for c in cases}
+    if shapes != set(TEMPLATES):
+        raise Inconclusive("shape table of MCFixCases.tla and the templates differ: %s" % sorted(shapes ^ set(TEMPLATES)))
+    txt = open(os.path.join(vlib.SPECS, "MCFixCases.tla")).read()
+    kinds = {}
+    for m in re.finditer(r'S\("(\w+)",\s*"(\w+)",\s*<<(.*?)>>', txt):
+        kinds[m.group(1)] = [{"B": "bool", "I": "int", "T": "str", "F": "flt", "L": "sl", "Y": "bs", "W": "w"}[x] for x in re.findall(r"\b([BITFLYW])\(", m.group(3))]
+    return cases, kinds, r
+
+
+def gen_function(name, case, kinds):
+    ops = [operand(kinds[case["shape"]][i], e, i) for i, e in enumerate(case["effects"])]
+    body = TEMPLATES[case["shape"]](ops, case["ctx"])
+    decls, inputs = [], set()
+    for rx, decl, dom in LOCALS:
+        for k in sorted(set(re.findall(rx, body))):
+            decls.append("\t" + decl % (k, k))
+            inputs.add(dom + k)
+    for rx, doms in CALLS:
+        for k in set(re.findall(rx, body)):
+            for d in doms:
+                inputs.add(d + k)
+    text = "func %s() (res string) {\n%s\n\t%s\n\treturn res\n}\n" % (name, "\n".join(decls), body)
+    return text, sorted(inputs)
+
+
+def generate(ctx, cases, kinds, root):
+    """-> module dir, {file: {"funcs": [(name, first line, last line, case idx)]}}, per-case inputs"""
+    os.makedirs(os.path.join(root, "rt"))
+    os.makedirs(os.path.join(root, "cases"))
+    with open(os.path.join(root, "go.mod"), "w") as f:
+        f.write("module ex.test/beh\n\ngo 1.22\n")
+    with open(os.path.join(root, "rt", "rt.go"), "w") as f:
+        f.write(RT_GO)
+    by_shape = collections.defaultdict(list)
+    for i, c in enumerate(cases):
+        by_shape[c["shape"]].append(i)
+    layout, inputs = {}, {}
+    for shape, idxs in sorted(by_shape.items()):
+        parts, funcs = [], []
+        body_all = ""
+        fn_texts = []
+        for i in idxs:
+            name = "C%04d" % i
+            text, ins = gen_function(name, cases[i], kinds)
+            inputs[i] = ins
+            fn_texts.append((name, text, i))
+            body_all += text
+        imps = sorted(p for tok, p in IMPORTS if tok in body_all or tok in PKG_DECLS.get(shape, ""))
+        head = "// Package cases: generated behaviour cases for C16 (shape %s).\npackage cases\n\nimport (\n%s\n)\n\n%s\n" % (
+            shape, "\n".join('\t"%s"' % p for p in imps), PKG_DECLS.get(shape, ""))
+        line = head.count("\n") + 1
+        out = head
+        for name, text, i in fn_texts:
+            n = text.count("\n")
+            funcs.append((name, line, line + n - 1, i))
+            out += text + "\n"
+            line += n + 1
+        fname = os.path.join(root, "cases", "c_%s.go" % shape)
+        with open(fname, "w") as f:
+            f.write(out)
+        layout[fname] = funcs
+    return layout, inputs
+
+
+def run_behaviour(ctx, helper, C16, only=None):
+    cases, kinds, tr = enumerate_cases(ctx)
+    if only:
+        cases = [c for c in cases if c["shape"] == only["shape"]]
+    elif ctx.quick:
+        # all statement shapes and a seeded half of the large boolean families
+        big = [c for c in cases if c["shape"].startswith(("qf1001", "s1002", "s1003"))]
+        rest = [c for c in cases if c not in big]
+        cases = sorted(rest + vlib.sample(ctx, big, len(big) // 2), key=lambda c: (c["shape"], c["ctx"], c["effects"]))
+    root = os.path.join(ctx.tmp("beh"), "mod")
+    layout, inputs = generate(ctx, cases, kinds, root)
+    env = C16.toolchain_env()
+    job = {"id": "behaviour", "dir": root, "patterns": ["./cases"], "tests": False, "env": env, "variant": "generated", "origin": []}
+
+    # the generated originals must compile: a generator bug is never a violation
+    rc, so, se = vlib.sh(["go", "build", "./..."], cwd=root, env=vlib.go_env(dict(e.split("=", 1) for e in env)), timeout=1800)
+    if rc != 0:
+        raise Inconclusive("generated behaviour cases do not compile (generator bug):\n%s" % (so + se)[-3000:])
+
+    stats = C16.new_stats()
+    art, dver, fver, c3 = C16.analyse(ctx, helper, [job], "beh", stats)
+    if stats["job_errors"] or stats["failed_pkgs"]:
+        raise Inconclusive("the runner failed on the generated behaviour package: %s %s" % (stats["job_errors"][:2], stats["failed_pkgs"][:2]))
+
+    # offered S*/QF* fixes per function, in (position, fix order)
+    per_func = collections.defaultdict(list)   # case idx -> [(fix record, meta)]
+    for fx, meta in zip(art.fixes, art.fmeta):
+        cat = meta["diag"]["cat"]
+        if not re.match(r"(S1|QF1)\d+$", cat):
+            continue
+        fname = meta["diag"]["pos"]["file"]
+        line = meta["diag"]["pos"]["line"]
+        for (name, a, b, idx) in layout.get(fname, []):
+            if a <= line <= b:
+                if c3.get(fx["id"]) == "ok" and fx["edits"]:
+                    per_func[idx].append((fx, meta))
+                break
+    nvar = max([len(v) for v in per_func.values()] or [0])
+    if not per_func:
+        raise Inconclusive("no S*/QF* fix was offered on the generated behaviour cases")
+
+    # fixed variants: variant n applies the n-th fix of every function that has one
+    pkgs = []
+    for n in range(nvar):
+        items, chosen = [], {}
+        for fname, funcs in layout.items():
+            edits, newtext = [], []
+            for (name, a, b, idx) in funcs:
+                if len(per_func[idx]) > n:
+                    fx, meta = per_func[idx][n]
+                    edits += fx["edits"]
+                    newtext += [e["new"] for e in meta["fix"]["edits"]]
+                    chosen[idx] = (fx, meta)
+            if not edits:
+                continue
+            content = art.read(fname)
+            patched = C16.py_splice(content, edits)
+            items.append({"id": fname, "dir": root, "patterns": ["./cases"], "tests": False, "env": env, "pkg": "ex.test/beh/cases", "file": fname,
+                          "patched_b64": base64.b64encode(patched).decode(), "newtext": newtext, "want_src": True})
+        verdicts = C16.run_check(ctx, helper, items, "beh%d" % n)
+        pdir = os.path.join(root, "fixed%d" % n)
+        os.makedirs(pdir)
+        ok_files = set()
+        for it in items:
+            v = verdicts[it["id"]]
+            if v["status"] != "ok" or not v.get("src"):
+                raise Inconclusive("fixes that type-check one by one do not type-check together in %s: %s" % (it["id"], v.get("errors") or v.get("why")))
+            src = re.sub(r"(?m)^package cases$", "package fixed%d" % n, v["src"], count=1)
+            with open(os.path.join(pdir, os.path.basename(it["id"])), "w") as f:
+                f.write(src)
+            ok_files.add(it["id"])
+        pkgs.append((n, chosen))
+
+    # main program
+    entries, imports = [], []
+    for n, chosen in pkgs:
+        imports.append('\t"ex.test/beh/fixed%d"' % n)
+        for idx in sorted(chosen):
+            entries.append('\t{"%d#%d", []string{%s}, cases.C%04d, fixed%d.C%04d},' % (idx, n, ", ".join('"%s"' % s for s in inputs[idx]), idx, n, idx))
+    imports.append('\t"ex.test/beh/cases"')
+    with open(os.path.join(root, "main.go"), "w") as f:
+        f.write(MAIN_GO % {"imports": "\n".join(imports), "entries": "\n".join(entries)})
+    binp = os.path.join(ctx.tmp("bin"), "beh.bin")
+    goenv = vlib.go_env(dict(e.split("=", 1) for e in env))
+    rc, so, se = vlib.sh(["go", "build", "-o", binp, "."], cwd=root, env=goenv, timeout=1800)
+    if rc != 0:
+        raise Inconclusive("the fixed behaviour program does not build although every fix type-checked:\n%s" % (so + se)[-3000:])
+    rc, so, se = vlib.sh([binp], timeout=900)
+    if rc != 0:
+        raise Inconclusive("behaviour program failed rc=%d: %s" % (rc, se[-2000:]))
+    tables = [json.loads(l) for l in so.splitlines()]
+    if len(tables) != len(entries):
+        raise Inconclusive("behaviour program produced %d tables for %d entries" % (len(tables), len(entries)))
+    execs = sum(2 * t["n"] for t in tables)
+
+    # TLC judges the tables
+    beh = [{"id": t["id"], "orig": t["orig"], "fixed": t["fixed"]} for t in tables]
+    verdicts = {}
+    states = 0
+    for i in range(0, len(beh), 1500):
+        r = vlib.run_tlc(ctx, "FixCasesObs", "FixCasesObs.cfg", workers=2, timeout=1800, extra_files={"beh.json": json.dumps(beh[i:i + 1500])})
+        vlib.tlc_require_ok(r, "FixCasesObs")
+        for c in r.cases:
+            verdicts[c["id"]] = c
+        states += r.distinct
+    if len(verdicts) != len(beh):
+        raise Inconclusive("FixCasesObs judged %d of %d tables" % (len(verdicts), len(beh)))
+
+    by_n = dict(pkgs)
+    nviol = 0
+    for t in tables:
+        v = verdicts[t["id"]]
+        py_ok = t["orig"] == t["fixed"]
+        if v["preserved"] != py_ok:
+            raise Inconclusive("TLC and Python disagree on table %s" % t["id"])
+        if v["preserved"]:
+            continue
+        idx, n = [int(x) for x in t["id"].split("#")]
+        fx, meta = by_n[n][idx]
+        case = cases[idx]
+        vec = v["vector"] - 1
+        cat = meta["diag"]["cat"]
+        nviol += 1
+        fname = meta["diag"]["pos"]["file"]
+        name, a, b, _ = next(f for f in layout[fname] if f[3] == idx)
+        src_lines = open(fname).read().split("\n")[a - 1:b]
+        key = vlib.canon_key({"clause": 4, "cat": cat, "shape": case["shape"], "fix": C16.norm_msg(meta["fix"]["msg"]), "why": v["why"]})
+        ctx.violation(key, "%s fix %r changes behaviour of shape %s (effects %s, context %s): %s" % (cat, meta["fix"]["msg"], case["shape"], case["effects"], case["ctx"], v["why"]),
+                      {"clause": 4, "category": cat, "shape": case["shape"], "why": v["why"], "abstract": case, "fix": {"msg": meta["fix"]["msg"], "edits": [{"new": e["new"], "pos": e["pos"]["off"], "end": e["end"]["off"]} for e in meta["fix"]["edits"]]},
+                       "function": "\n".join(src_lines), "input_vector_index": vec, "inputs": t["inputs"], "orig": t["orig"][vec], "fixed": t["fixed"][vec]})
+
+    # negative self-test: a table with one flipped observation must be rejected by TLC
+    good = next((t for t in tables if t["orig"] == t["fixed"] and t["n"] > 0), None)
+    if good is None:
+        raise Inconclusive("no behaviour table with equal observations to build the negative self-test from")
+    bad = json.loads(json.dumps({"id": good["id"], "orig": good["orig"], "fixed": good["fixed"]}))
+    bad["fixed"][-1]["emits"] = bad["fixed"][-1]["emits"] + [bad["fixed"][-1]["emits"][-1] if bad["fixed"][-1]["emits"] else 0]
+    r = vlib.run_tlc(ctx, "FixCasesObs", "FixCasesObs_strict.cfg", workers=1, timeout=600, extra_files={"beh.json": json.dumps([bad])})
+    if r.violated != "BehaviourPreserved":
+        raise Inconclusive("negative self-test: TLC accepted a behaviour table with a duplicated operand evaluation (%s)" % r.violated)
+
+    offered = collections.Counter(cases[i]["shape"] for i in per_func if per_func[i])
+    sample_t = tables[len(tables) // 2]
+    si, sn = [int(x) for x in sample_t["id"].split("#")]
+    return {
+        "abstract_cases_enumerated": tr.distinct, "cases_instantiated": len(cases), "cases_with_fix": sum(1 for i in per_func if per_func[i]),
+        "fix_applications_executed": len(tables), "executions": execs, "tables_judged_by_tlc": len(verdicts), "tlc_states": states + tr.distinct,
+        "behaviour_differences": nviol, "shapes": len(TEMPLATES), "shapes_with_fix_offered": dict(sorted(offered.items())),
+        "shapes_never_offered_a_fix": sorted(set(TEMPLATES) - set(offered)),
+        "generated_package_diagnostics": stats["diagnostics"], "generated_package_fixes": stats["fixes"],
+        "sample": {"abstract": cases[si], "fix": by_n[sn][si][1]["fix"]["msg"], "inputs": sample_t["inputs"], "orig_first": sample_t["orig"][:2], "fixed_first": sample_t["fixed"][:2]},
+    }
